@@ -100,7 +100,7 @@ namespace MQ
 def PC.srcNeutral : PC → Bool
   | .idle | .ret _ | .s0 | .m1 | .od _ | .nb1 _ | .nb2 _ | .nf _ _ | .r0 | .c1 _ _ _ | .c2 _ _ _ _ | .wy _ _ _
   | .wl _ _ | .wcvw _ _ | .wblk _ _ | .pk _ _ | .psl | .cs1 | .ds1 | .cr1 | .un1 | .dr1 | .rr3 _ | .rr4 | .rr5
-  | .isg | .arc _ | .tdb _ | .tdbd _ | .tm1 _ | .tm2 _ | .tm3 _ | .tmd _ | .tm4 _ | .sy | .spl | .w0 _ => true
+  | .isg | .arc _ | .tdb _ | .tdbd _ | .tm1 _ | .tm2 _ | .tm3 _ | .tmd _ | .tm4 _ | .tdr | .sy | .spl | .w0 _ => true
   | _ => false
 
 set_option maxHeartbeats 1000000 in
